@@ -256,8 +256,9 @@ def check_main(spec: PropertySpec, tier: str) -> int:
     for l in out_lines:
         print(l)
     ev = evidence(spec, tier, seed, instances, time.time() - t0, db, known_hits, sens)
-    with open(ev_path, "w") as fh:
-        json.dump(ev, fh, indent=1, default=str)
+    if not os.environ.get("EQL_VERIF_DRY"):       # dry runs (trying a seeded change) leave the committed evidence alone
+        with open(ev_path, "w") as fh:
+            json.dump(ev, fh, indent=1, default=str)
     decided = [i for i in instances if i.verdict in (HOLDS, VIOLATION)]
     print(f"-- {spec.id}: {len(decided)} obligations, {len(decided) - len(violations)} discharged, "
           f"{len(violations)} violated ({len(known_hits)} known), {len(undecided)} undecided, "
